@@ -41,8 +41,6 @@ def judge(res: Result, case: Dict[str, Any], vals: List[Any], typ, k: int, get_t
         return  # C04's business
     arm = IC.arm_of(types, k)
     res.oblige(f"arm:{arm}", True)
-    if not all(O.member(v, T) for v in vals):
-        return  # C04's business
     why = O.tight(T, vals)
     if why is not None:
         sig = why.split(":", 1)[1].strip().split(" ")[0:3]
